@@ -52,9 +52,17 @@ func serverHarness(rc *RunCtx) {
 	if v := rc.Params["setting"]; v != "" {
 		setting = v
 	}
+	jsonSimple := false
 	if setting == "simple" && env.proto == "json" {
-		env.proto = "binary" // JSON over the framed simple server is recorded finding D9
-		env.pf = frugal.NewFProtocolFactory(protoFactory(env.proto))
+		if tp.Intn("jsonsimple", 2) == 1 {
+			// JSON over the framed simple server breaks when a request arrives in more than one read (finding
+			// D9); with every request readable in one piece it works, and the JSON reader's state between
+			// requests of one connection is worth having in the workload
+			jsonSimple = true
+		} else {
+			env.proto = "binary"
+			env.pf = frugal.NewFProtocolFactory(protoFactory(env.proto))
+		}
 	}
 	env.kind = setting
 	env.proc = simsvc.NewFSimSvcProcessor(&simHandler{env: env})
@@ -249,6 +257,7 @@ func serverHarness(rc *RunCtx) {
 			var ssts []*SimStream
 			for c := 0; c < nConns; c++ {
 				sst := NewSimStream(rc, fmt.Sprintf("srv%d", c))
+				sst.WholeItems = jsonSimple
 				sst.Open()
 				sst.OnFrame = onReply
 				env.streams = append(env.streams, sst)
